@@ -271,6 +271,11 @@ func runSerial(w *tracelog.Writer, seed int64, traces, ops int) error {
 		// aftermath of a burst of fruitless queries: the same record is seen again, then answers a query
 		var burstRec *enode.Node
 		aftermath := 0
+		// a liveness check that outlives its entry (seed C18-3): begun on an entry, the entry then leaves (deletion or five
+		// fruitless queries) and, mostly, the id comes back as a new entry before the result is delivered
+		var stale *portalwire.VerifRevalHandle
+		var staleRec *enode.Node
+		stalePhase := 0 // 1 remove, 2 re-add, 3 deliver
 		for step := 0; step < ops; step++ {
 			op := map[string]any{"name": "", "id": -1, "inbound": false, "seq": 0, "net": -2, "ip": -1, "port": 0, "alive": false, "credit": 0,
 				"ok": false, "fails": 0, "nb": 0, "found": []int{}, "newrec": false, "isentry": false, "ld": 0}
@@ -310,7 +315,23 @@ func runSerial(w *tracelog.Writer, seed int64, traces, ops int) error {
 					return false
 				}
 				k := rng.Intn(100)
-				if aftermath > 0 && burstLeft == 0 && burstRec != nil {
+				if stalePhase == 0 && burstLeft == 0 && aftermath == 0 && rng.Intn(30) == 0 {
+					var ents []portalwire.VerifNode
+					for _, b := range snap {
+						ents = append(ents, b.Entries...)
+					}
+					if len(ents) > 0 {
+						e := ents[rng.Intn(len(ents))]
+						staleRec = mkNode(e.ID, e.IP, e.UDP, e.Seq)
+						if stale = vt.RevalBegin(e.ID); stale != nil {
+							stalePhase = 1
+						}
+					}
+				}
+				if stalePhase > 0 {
+					k = 200 + stalePhase
+				}
+				if aftermath > 0 && burstLeft == 0 && burstRec != nil && stalePhase == 0 {
 					if aftermath == 2 {
 						k = 0 // addFound
 					} else {
@@ -337,6 +358,34 @@ func runSerial(w *tracelog.Writer, seed int64, traces, ops int) error {
 				}
 				inBurst := burstLeft > 0
 				switch {
+				case k == 201: // the checked entry leaves
+					op["name"] = "delete"
+					setRec(staleRec)
+					vt.Delete(staleRec)
+					stalePhase = 2
+					if rng.Intn(5) == 0 {
+						stalePhase = 3 // not re-added: the plain "removed while being checked" case
+					}
+				case k == 202: // the id comes back (same or new endpoint) as a new entry
+					r := staleRec
+					if rng.Intn(2) == 0 {
+						r = wd.randRecord(rng, wd.byID[staleRec.ID()], crowd)
+						if lanOnly {
+							r = mkNode(staleRec.ID(), wd.ips[24+rng.Intn(12)], r.UDP(), r.Seq())
+						}
+					}
+					inb := rng.Intn(2) == 0
+					op["name"], op["inbound"] = map[bool]string{true: "addInbound", false: "addFound"}[inb], inb
+					setRec(r)
+					op["nb"], op["isentry"] = len(bucketOf(r.ID()).Entries), isEntry(r.ID())
+					vt.Add(r, inb, !inb && rng.Intn(2) == 0)
+					stalePhase = 3
+				case k == 203: // the old check's result arrives
+					alive := rng.Intn(3) == 0
+					op["name"], op["alive"], op["id"], op["ld"] = "revalstale", alive, wd.byID[staleRec.ID()].idx, wd.byID[staleRec.ID()].ld
+					op["isentry"] = isEntry(staleRec.ID())
+					op["credit"] = int(vt.RevalFinish(stale, alive, nil))
+					stale, stalePhase = nil, 0
 				case k < 38:
 					op["name"] = "addFound"
 					setRec(rec)
